@@ -1,7 +1,7 @@
 """C11 - forward and backward never modify operands, targets or the caller's gradient (effects / ownership)."""
 import ast
 from sa import opcat, rules_engine as E
-from sa.core import norm, body_walk, dotted, names_in
+from sa.core import norm, body_walk, dotted, names_in, inline_expr
 from sa.absint import Interp
 from sa.domains.alias import Alias
 from sa.report import Incomplete
@@ -148,8 +148,9 @@ def check(model, R, tier):
     R.rule('C11.COPY', 'clone() and detach() return storage independent of their source', floor=2)
     det = model.func('synapgrad.tensor.Tensor.detach')
     rets = [n for n in body_walk(det.node) if isinstance(n, ast.Return)]
-    ok = len(rets) == 1 and isinstance(rets[0].value, ast.Call) and rets[0].value.args and E.fresh_expr(model, det, rets[0].value.args[0]) \
-        and 'self.data' in norm(rets[0].value.args[0])
+    rv = inline_expr(det.node, rets[0].value) if len(rets) == 1 else None
+    ok = len(rets) == 1 and isinstance(rv, ast.Call) and rv.args and E.fresh_expr(model, det, rv.args[0]) \
+        and 'self.data' in norm(rv.args[0])
     R.ob('C11.COPY', det.qualname, norm(rets[0].value) if rets else 'no return', ok, 'detach must wrap a copy of self.data', det.loc)
     cf = model.func('synapgrad.cpu_ops.clone_forward')
     I = Interp(model, cf, Alias())
